@@ -32,6 +32,9 @@ def compare_batch(out: Outcome, runners: list[dets.Runner], rtol: float = 1e-9, 
         ok_steps = 0
         r.mismatch_at = r.tie_at = None
         for k, (impl, modl) in enumerate(zip(r.obs, res[a:b])):
+            if impl is None:          # an update after which nothing was read (see Runner.update(observe=False))
+                ok_steps += 1
+                continue
             toks = modl.split(" ")
             tie = toks[-1] == "tie=1"
             toks = toks[:-1]
